@@ -1957,13 +1957,14 @@ where
             return Err(RadioError::InvalidBandwidthForFrequency);
         }
 
-        let mut low_data_rate_optimize = 0x00u8;
-        if (((spreading_factor == SpreadingFactor::_11) || (spreading_factor == SpreadingFactor::_12))
-            && (bandwidth == Bandwidth::_125KHz))
-            || ((spreading_factor == SpreadingFactor::_12) && (bandwidth == Bandwidth::_250KHz))
-        {
-            low_data_rate_optimize = 0x01u8;
-        }
+        // Low data rate optimisation is mandated for symbol times >= 16.38 ms; use the same
+        // decision as the airtime calculator for every SF/BW pair
+        let low_data_rate_optimize =
+            if lora_modulation::BaseBandModulationParams::new(spreading_factor, bandwidth, coding_rate).ldro {
+                0x01u8
+            } else {
+                0x00u8
+            };
 
         Ok(ModulationParams {
             spreading_factor,
